@@ -14,6 +14,13 @@ THEOREMS = [
     "TornadoModel.C47.environ_content_headers",
     "TornadoModel.C47.response_faithful",
     "TornadoModel.C47.wire_shape",
+    "TornadoModel.C47.group_values",
+    "TornadoModel.C47.http_var_name",
+    "TornadoModel.C47.environ_http_vars",
+    "TornadoModel.C47.environ_http_names",
+    "TornadoModel.C47.content_headers_not_http",
+    "TornadoModel.C47.body_join",
+    "TornadoModel.C47.body_dropped",
 ]
 TRUSTED = [
     "HTTPHeaders (`in`, `pop`, `items()`, `add`, `get_all`) as the ordered multimap of property C06, restated on pair lists",
@@ -40,9 +47,12 @@ CLAUSES = {
     "building the environ never raises": "environ_total (old rule: old_environ_raises)",
     "environ carries method, percent-decoded path, query string": "environ_fields",
     "host name and port as the CGI conventions require": "host_port_explicit + host_port_absent + host_port_ipv6_literal + environ_fields",
-    "content headers and other headers": "environ_content_headers + tie (HTTP_* entries: correspondence and oracle `Spec.expected`)",
+    "content headers and other headers": "environ_content_headers + http_var_name + environ_http_vars + environ_http_names + "
+        "content_headers_not_http (headers whose HTTP_* name collides with a differently spelled header: last one wins in the model, "
+        "tie only: correspondence; the oracle `Spec.expected` skips them)",
     "status, headers and body reach the client unchanged apart from the three defaults":
-        "response_faithful + wire_shape; tie only: regrouping of repeated header names by HTTPHeaders (group_values_goal) and the wire bytes themselves (exact comparison with HTTP1Connection, oracle Spec.faithful on the parsed response)",
+        "response_faithful + group_values + body_join + body_dropped + wire_shape; tie only: the wire bytes themselves "
+        "(exact comparison with HTTP1Connection, oracle Spec.faithful on the parsed response)",
 }
 PARALLEL = True
 CASE_TIMEOUT = 120
@@ -288,6 +298,11 @@ def _app_body(case):
     return b"".join(bytes.fromhex(x) for x in case["app"]["writes"] + case["app"]["chunks"])
 
 
+def _app_pieces(case):
+    """what `response.append` receives, in order: the write() arguments, then the chunks of the iterable (the model joins them)"""
+    return [bytes.fromhex(x) for x in case["app"]["writes"] + case["app"]["chunks"]]
+
+
 def model_requests(case, impl):
     if "harness_exc" in impl or impl.get("snap") is None:
         return []
@@ -295,7 +310,7 @@ def model_requests(case, impl):
     req = [sn["method"], sn["uri"], sn["version"], sn["host"], atom(bool(sn["https"])), sn["remote_ip"], sn["headers"],
            bytes.fromhex(sn["body"])]
     return [line(ID, "environ", req),
-            line(ID, "respond", case["method"], impl["tver"], case["app"]["status"], case["app"]["headers"], _app_body(case),
+            line(ID, "respondj", case["method"], impl["tver"], case["app"]["status"], case["app"]["headers"], _app_pieces(case),
                  atom(bool(case["close"])))]
 
 
